@@ -22,6 +22,8 @@ def run(tier, seed):
     items = [(P.calc_pu_coeff('C11'),), (P.set_pu_coeff('C11'),), (P.restore('C11'),), (P.model_set('C11', 'v'),),
              (P.model_set('C11', 'vin'),)] + [(c,) for c in P.model_alter('C11')] + [(P.group_alter('C11'), None, P.replay_group_alter), (P.as_dict('C11'),), (P.as_dict('C11', converter=True),)]
     from contracts import fn_decl as D
+    from contracts import fn_sequence as Q
+    items += [(Q.system_reset('C11'),), (Q.p_restore('C11'),)]
     items += [(D.declaration('C11', *D.GENBASE),), (D.declaration('C11', *D.LINE),)]
     run_contracts(pack, items)
     return pack.finish()
